@@ -314,7 +314,7 @@ def run(ctx):
         "opts": {"time_horizon": 30.0, "drain": 2.0,
                  "max_points": 60000 if params.get("bound0") else 8000, "free_switch_cost": 1,
                      "time_jump_cost": None if ctx.quick else 1},
-        "budget": 3000 if ctx.quick else 30000,
+        "budget": 3000 if ctx.quick else 20000,
     } for params in scenario_params(ctx.tier)]
     ctx.pmap(H.shard, specs)
     H.finish(
